@@ -738,8 +738,17 @@ func (nc *Conn) Request(subj string, data []byte, timeout time.Duration) (*Msg, 
 		panic("nats shim: Request from inside a subscription callback is not supported on an inline bus")
 	}
 	if nc.down.Load() {
-		time.Sleep(timeout)
-		return nil, ErrTimeout
+		// nats.go keeps the request in its reconnect buffer: it is sent when the link is back, and the
+		// reply is accepted if it arrives before the timeout
+		b.mu.Lock()
+		nc.buf = append(nc.buf, &Msg{Subject: subj, Reply: inbox, Data: append([]byte{}, data...)})
+		b.mu.Unlock()
+		select {
+		case m := <-s.inbox:
+			return m, nil
+		case <-time.After(timeout):
+			return nil, ErrTimeout
+		}
 	}
 	n, err := b.route(nc, subj, inbox, data, false)
 	if err != nil {
